@@ -218,6 +218,16 @@ type c18Msg struct {
 	Event  int    `json:"event"`  // 0: keep the event; else rename to c10Events[event-1] / junk
 	Round  int    `json:"round"`  // 0: keep; 1: unknown round id; 2: empty; 3: very long
 	Signer int    `json:"signer"` // which registered participant signs and sends (offset from the original sender)
+	Gentle bool   `json:"gentle"` // value tweaks only (kinds that tend to keep the message acceptable), event/round/sender unchanged
+}
+
+// kinds that change a value without destroying the message's shape: such mutants are often accepted and stored
+var jGentleKinds = []string{"string", "short-string", "long-string", "duplicate-element", "nested", "zero", "float", "null-in-array", "object"}
+
+func c18GenGentle(rt *rapid.T) c18Msg {
+	nt := rapid.SampledFrom([][2]int{{2, 2}, {3, 2}, {4, 3}}).Draw(rt, "nt")
+	return c18Msg{Trace: rapid.SampledFrom([]string{"honest", "twobatches", "twobatches"}).Draw(rt, "trace"), N: nt[0], T: nt[1], Step: rapid.IntRange(0, 500).Draw(rt, "step"), Gentle: true,
+		Muts: []jMut{{Path: rapid.IntRange(0, 400).Draw(rt, "path"), Kind: rapid.SampledFrom(jGentleKinds).Draw(rt, "kind"), A: rapid.IntRange(0, 100000).Draw(rt, "a")}}}
 }
 
 func c18GenMsg(rt *rapid.T) c18Msg {
@@ -456,6 +466,39 @@ func c18RunOp(t *testing.T, st *vstat.Stats, p c18Op) (v *viol) {
 		closed = true
 		world.Drain()
 		after := dbSnapshot(mdir)
+		if perr == nil {
+			// the machine answered (with a result or an error result): the operator goes on with the genuine operations that
+			// follow in the ceremony; none of them may crash the machine either
+			cont := 0
+			for k := at; k < len(recs) && cont < 4; k++ {
+				var gop types.Operation
+				if json.Unmarshal(recs[k].OpFile, &gop) != nil {
+					continue
+				}
+				cont++
+				func() {
+					defer func() {
+						if r := recover(); r != nil {
+							pan = fmt.Sprintf("%v | %s", r, trimStack(debug.Stack()))
+						}
+					}()
+					_, _ = m.M.ProcessOperation(gop, true)
+				}()
+				if pan != "" {
+					v = violf("airgapped-panic-later:"+recs[k].Type, "%s was answered; the genuine %s operation fed afterwards makes ProcessOperation panic: %s", desc, recs[k].Type, clip(pan, 500))
+					return
+				}
+			}
+			m.Close()
+			closed = true
+			world.Drain()
+			st.Class("op:result-produced")
+			for _, k := range applied {
+				st.Class("mut:" + k)
+			}
+			st.NonTrivial(fmt.Sprintf("o/%s/%d/%d/%s/%s/%v", p.Trace, p.N, p.T, src.Type, state.Type, applied))
+			return
+		}
 		if perr != nil {
 			// a Go-level error is a rejection: keys, keyrings and the operation log stay as they were. Replaying the log
 			// (done by the harness before the operation) re-encrypts the keyrings with fresh nonces, so keyrings are
@@ -635,6 +678,7 @@ func TestC18(t *testing.T) {
 		c18Hostile(t, st)
 	})
 	rapidProp(t, st, "messages", perShard(pick(8000, 400000)), 1, c18GenMsg, func(p c18Msg) *viol { return c18RunMsg(t, st, p) })
+	rapidProp(t, st, "poisoned-continuation", perShard(pick(6400, 300000)), 4, c18GenGentle, func(p c18Msg) *viol { return c18RunMsg(t, st, p) })
 	rapidProp(t, st, "operations", perShard(pick(1600, 60000)), 2, c18GenOp, func(p c18Op) *viol { return c18RunOp(t, st, p) })
 	rapidProp(t, st, "api", perShard(pick(2400, 100000)), 3, c18GenAPI, func(p c18API) *viol { return c18RunAPI(t, st, p) })
 }
